@@ -107,16 +107,31 @@ func runCmd(dir string, env []string, timeout time.Duration, name string, args .
 	go func() { done <- cmd.Wait() }()
 	timedOut := false
 	var err error
+	var deadline <-chan time.Time
 	if timeout > 0 {
+		deadline = time.After(timeout)
+	}
+	tick := time.NewTicker(time.Second)
+	defer tick.Stop()
+wait:
+	for {
 		select {
 		case err = <-done:
-		case <-time.After(timeout):
+			break wait
+		case <-deadline:
 			timedOut = true
 			cmd.Process.Kill()
 			err = <-done
+			break wait
+		case <-tick.C: // memory watchdog: a runaway child is an infrastructure problem (exit 2), never a verdict
+			if rss := rssOf(cmd.Process.Pid); rss > maxChildRSS {
+				timedOut = true
+				cmd.Process.Kill()
+				err = <-done
+				fmt.Fprintf(&buf, "\nvcheck: child exceeded %d MiB resident memory (%d MiB): killed\n", maxChildRSS>>20, rss>>20)
+				break wait
+			}
 		}
-	} else {
-		err = <-done
 	}
 	code := 0
 	if err != nil {
